@@ -265,7 +265,34 @@ def fams_c16(tier, seed):
     ]
 
 
+PARK_MACROS = {"send": 6, "recv": 6, "sendt": 2, "recvt": 2, "try": 2, "tryr": 2, "asend2": 2, "arecv2": 2, "asend1": 1, "arecv1": 1,
+               "stream3": 1, "close": 1, "drops": 1, "dropr": 1, "drain": 1}
+
+
+def extra_c0607(pid):
+    return dict(level="proof", lean_targets=[f"Kanal.Props.{pid}", "Kanal.Tie"], props_files=[f"Kanal/Props/{pid}.lean", "Kanal/Tie.lean"],
+                leancheck=[f"Kanal.Props.{pid}", "Kanal.SigM"],
+                trusted=["memory model = SC values + happens-before flags on release/acquire edges (not full C11)",
+                         "conc scheduler, monitors and oracles (harness, lib/conc.py)", "park/unpark and Waker::wake honoured by OS/executor (token / wake log)"],
+                assumptions=COMMON_ASSUME)
+
+
 PROPS = {
+    "C06": dict(extra_c0607("C06"),
+                families=lambda tier, seed: [Family("pending5", "exh", "PQyvdc", "0,1", depth=5, configs=("w:s", "l:a"))] if tier == "quick" else
+                                            [Family("pending7", "exh", "PQyvdc", "0,1,2", depth=7, configs=("w:s", "l:a"))],
+                conc=conc_prof("progress", PARK_MACROS, ["stuck", "wake", "orderings"], oracles=("ledger", "lifetime", "timeout"),
+                               qn=500, tn=15000, strategies=STRATS + ("after:park:1", "after:cas:2", "after:unpark:1")),
+                conc_corpus=["D5_recv_future_waker_race.prog"], conc_corpus_monitors=["wake"],
+                relevant=rel_tokens(r" w\d+|pending|err:Closed"),
+                explanation="channel level: a listed waiter cannot complete yet, a registered undecided waiter is listed, a claimed waiter can always be finalised and a final one can return; signal level (SigM, extracted orderings): no lost wake-up incl. spurious unparks and spin->park, future's waker woken exactly once, every own step of the waiter decreases a rank once the peer is done, peer never waits; negative run without unpark"),
+    "C07": dict(extra_c0607("C07"),
+                families=lambda tier, seed: [],
+                conc=conc_prof("handoff", PARK_MACROS, ["orderings", "peerproto", "mutex", "stuck"], oracles=("lifetime", "ledger"),
+                               qn=500, tn=15000, strategies=STRATS + ("after:park:1", "after:cas:2", "after:unpark:1", "after:cell:2")),
+                conc_corpus=["D5_recv_future_waker_race.prog"], conc_corpus_monitors=["wake", "peerproto"],
+                relevant=lambda d: True,
+                explanation="SigM invariant (20 conjuncts) inductive over every waiter/peer interleaving for all three waiter kinds and both final states: no race on slot or handle cell, no peer access after the owner is gone, the waiter sees the peer's final state with synchronisation; instantiated with the extracted orderings; proved counterexamples with a relaxed store / without the fence"),
     "C13": simple("C13", "proof", fams_c13,
                   conc_prof("timed", TIMED_MACROS, ["stuck"], caps=("0", "1", "2"),
                             strategies=("random", "uniform", "pct:3", "after:now:1", "after:now:3", "after:now:6", "after:unlock:2", "after:pread:1", "after:pwrite:1", "after:st:1")),
